@@ -20,5 +20,5 @@ try:
         res[p] = {"rc": r.returncode, "violations": vio, "failing": fails[:12], "wall_s": round(time.time() - t)}
         print(p, "rc=", r.returncode, len(vio), "violation lines;", "; ".join(f.split()[2] if len(f.split()) > 2 else f for f in fails[:8]))
 finally:
-    sh("git -C /repo checkout -- .")
+    sh("git -C /repo checkout -- . && git -C /repo clean -fdq")
 json.dump(res, open(os.path.join(seed, "check_result.json"), "w"), indent=1)
